@@ -1,57 +1,132 @@
 (* C15 -- tracker events mirror the life cycle of each track.
-   Statements only; proofs live in Proofs/TrackerProofs.v.
+   Statements only; proofs live in Proofs/TrackerCbProofs.v.  The model is the general one (Model/Tracker.v `trkc_step`):
+   the subscriber callbacks may raise.  A history is a list of (environment, operation): the environment says what
+   every callback does during that operation (Props/C13.v explains `trk_env`, `reachable_any`).
 
-   r_calls res               the `self._broker.propagate(track, event)` calls of one operation, in order
-   abs_calls                 the same as (event, mmsi) pairs
-   run_events                all of them over a whole run
+   rc_calls res              the `self._broker.propagate(track, event)` calls the operation started, in order
+   abs_calls                 the same as (event, mmsi) pairs;  run_events_c: all of them over a whole run
+   rc_deliv res              the callback invocations (callback, event, track) of the operation, in order
    sp_alive m trace          runs the automaton (CREATED UPDATED* DELETED)* on the events of MMSI m:
                              Some true = legal, alive; Some false = legal, dead; None = the trace left the language
    sp_expected_events        the events one operation owes MMSI m: CREATED exactly when it gains a track, UPDATED for a
-                             further accepted update, DELETED exactly once when its track goes away, nothing otherwise *)
+                             further accepted update, DELETED exactly once when its track goes away, nothing otherwise
+   sp_cut raises l           the subscribers l up to and including the first one that raises
+
+   Two layers: WHICH events are emitted (the propagate calls) follows the life cycle whatever the subscribers do -- every
+   change of the table is followed by its propagate call before anything can fail --; TO WHOM each event goes is the
+   subscriber loop, which a raising subscriber cuts short (C15_deliveries, C15_delivery_truncated). *)
 From Coq Require Import ZArith List Bool.
-Require Import Prim.Exn Prim.IntDict Model.Tracker Spec.TrackerSpec Proofs.TrackerProofs.
+Require Import Prim.Exn Prim.IntDict Model.Tracker Spec.TrackerSpec Proofs.TrackerProofs Proofs.TrackerCbProofs.
 Import ListNotations.
 Open Scope Z_scope.
 
-(* For every history and every MMSI: the events stay inside the language and "alive" is "has a track", at every
-   moment (h ranges over all histories, so over all prefixes as well). *)
-Theorem C15_lifecycle : forall (V : Type) (nattrs : nat) (ttl : option Z) (ordered : bool) (h : list (trk_op V)) (m : Z),
-  let run := trk_run nattrs (trk_init ttl ordered) h in
-  sp_alive m (run_events (snd run)) = Some (idict_mem (t_tracks (fst run)) m).
-Proof. exact (fun V => @events_lifecycle V). Qed.
+(* For every history, every behaviour of the subscribers (also operations left by their exceptions) and every MMSI: the
+   events stay inside the language and "alive" is "has a track", at every moment (h ranges over all histories, so over
+   all prefixes as well). *)
+Theorem C15_lifecycle : forall (V : Type) (nattrs : nat) (ttl : option Z) (ordered : bool)
+                               (h : list (trk_env V * trk_op V)) (m : Z),
+  let run := trkc_run nattrs (trk_init ttl ordered) h in
+  sp_alive m (run_events_c (snd run)) = Some (idict_mem (t_tracks (fst run)) m).
+Proof. exact (fun V => @events_lifecycle_c V). Qed.
 Print Assumptions C15_lifecycle.
 
-(* What each single operation emits, for every MMSI, from every reachable state -- update (accepted or rejected),
-   pop_track, cleanup (expiry), callback registration: exactly the events the life cycle owes, in order. *)
-Theorem C15_events_of_a_step : forall (V : Type) (nattrs : nat) (st : trk_tracker V) (op : trk_op V) (m : Z),
-  reachable nattrs st ->
-  let res := trk_step nattrs st op in
-  sp_events_of m (abs_calls (r_calls res)) =
-    sp_expected_events (step_target op res) m (idict_mem (t_tracks st) m) (idict_mem (t_tracks (r_state res)) m) /\
-  (idict_mem (t_tracks st) m = false -> step_target op res <> Some m ->
-   idict_mem (t_tracks (r_state res)) m = false).
-Proof. exact (fun V => @step_events_reachable V). Qed.
+(* What each single operation emits, for every MMSI, from every state -- update (accepted or rejected, returning or left
+   by a subscriber's exception), pop_track, cleanup (complete or left in the middle), callback registration: exactly the
+   events the life cycle owes for the change of the table it made, in order.  step_target_c = the MMSI of an accepted
+   update (one that got as far as propagating CREATED / UPDATED). *)
+Theorem C15_events_of_a_step : forall (V : Type) (nattrs : nat) (env : trk_env V) (st : trk_tracker V) (op : trk_op V) (m : Z),
+  reachable_any nattrs st ->
+  let res := trkc_step nattrs env st op in
+  sp_events_of m (abs_calls (rc_calls res)) =
+    sp_expected_events (step_target_c op res) m (idict_mem (t_tracks st) m) (idict_mem (t_tracks (rc_state res)) m) /\
+  (idict_mem (t_tracks st) m = false -> step_target_c op res <> Some m ->
+   idict_mem (t_tracks (rc_state res)) m = false).
+Proof. exact (fun V => @step_events_reachable_c V). Qed.
 Print Assumptions C15_events_of_a_step.
 
-(* A rejected update emits nothing (and changes nothing). *)
-Theorem C15_rejected_emits_nothing : forall (V : Type) (nattrs : nat) (st : trk_tracker V) now (msg : trk_msg V) ts,
-  reachable nattrs st ->
-  let res := trk_step nattrs st (OpUpdate now msg ts) in
-  r_exn res <> None -> r_calls res = [] /\ r_state res = st.
-Proof. exact (fun V => @rejected_emits_nothing V). Qed.
+(* A rejected update (older than its own track or, ordered mode, than some track -- exactly these) calls nobody,
+   changes nothing and raises ValueError; every other update propagates CREATED / UPDATED. *)
+Theorem C15_rejected_emits_nothing : forall (V : Type) (nattrs : nat) (env : trk_env V) (st : trk_tracker V) now (msg : trk_msg V) ts,
+  reachable_any nattrs st ->
+  let res := trkc_step nattrs env st (OpUpdate now msg ts) in
+  (rc_calls res = [] <-> upd_rejected st (m_mmsi msg) (msg_ts ts now)) /\
+  (rc_calls res = [] -> rc_state res = st /\ rc_deliv res = [] /\ rc_exn res = Some (Py ValueError)).
+Proof. exact (fun V => @rejected_unchanged_c V). Qed.
 Print Assumptions C15_rejected_emits_nothing.
+
+(* To whom: the callback invocations of an operation are those of its propagate calls, call after call; each call goes to
+   the subscribers of its event in registration order, up to and including the first one that raises. *)
+Theorem C15_deliveries : forall (V : Type) (nattrs : nat) (env : trk_env V) (st : trk_tracker V) (op : trk_op V),
+  reachable_any nattrs st ->
+  rc_deliv (trkc_step nattrs env st op) =
+    flat_map (fun c => map (fun cb => (cb, fst c, snd c))
+                           (sp_cut (cb_raises env (fst c) (snd c)) (subscribers (t_broker st) (fst c))))
+             (rc_calls (trkc_step nattrs env st op)).
+Proof. exact (fun V => @deliveries_of_calls V). Qed.
+Print Assumptions C15_deliveries.
+
+(* What the cut means: a subscriber in front of which every subscriber returns is reached; behind a subscriber that
+   raises nobody is; if nobody raises everybody is. *)
+Theorem C15_delivery_reaches : forall (A : Type) (raises : A -> bool) (l1 l2 : list A) (c : A),
+  (forall x, In x l1 -> raises x = false) -> exists rest, sp_cut raises (l1 ++ c :: l2) = l1 ++ c :: rest.
+Proof. exact (fun A => @cut_reaches A). Qed.
+Print Assumptions C15_delivery_reaches.
+
+Theorem C15_delivery_truncated : forall (A : Type) (raises : A -> bool) (l1 l2 : list A) (c x : A),
+  In c l1 -> raises c = true -> ~ In x l1 -> ~ In x (sp_cut raises (l1 ++ l2)).
+Proof. exact (fun A => @cut_hides A). Qed.
+Print Assumptions C15_delivery_truncated.
+
+Theorem C15_delivery_complete : forall (A : Type) (raises : A -> bool) (l : list A),
+  (forall x, In x l -> raises x = false) -> sp_cut raises l = l.
+Proof. exact (fun A => @cut_all A). Qed.
+Print Assumptions C15_delivery_complete.
+
+(* Which exception an operation raises: ValueError of a rejected update (nobody was called), or the exception of the LAST
+   callback it invoked -- the one that cut the loop --, except that a KeyError of a DELETED callback never leaves. *)
+Theorem C15_exception_origin : forall (V : Type) (nattrs : nat) (env : trk_env V) (st : trk_tracker V) (op : trk_op V) (e : exn),
+  reachable_any nattrs st -> rc_exn (trkc_step nattrs env st op) = Some e ->
+  (rc_calls (trkc_step nattrs env st op) = [] /\ rc_deliv (trkc_step nattrs env st op) = [] /\ e = Py ValueError) \/
+  (exists pre cb ev tr, rc_deliv (trkc_step nattrs env st op) = pre ++ [(cb, ev, tr)] /\ e_cb env cb ev tr = CbRaise e /\
+     (ev = DELETED -> exn_is_keyerror e = false)).
+Proof. exact (fun V => @exception_origin V). Qed.
+Print Assumptions C15_exception_origin.
 
 (* non-vacuity: creation, update, rejected update, expiry of one vessel while the other stays, pop, re-creation *)
 Example C15_nonvacuous :
-  let h := [OpUpdate 0 (mkMsg 111 [MPresent (Some 1)]) None;
-            OpUpdate 1 (mkMsg 111 [MPresent (Some 2)]) None;
-            OpUpdate 1 (mkMsg 111 [MPresent (Some 3)]) (Some 0);
-            OpUpdate 30 (mkMsg 222 [MPresent (Some 4)]) None;
-            OpPop 222;
-            OpUpdate 31 (mkMsg 111 [MPresent (Some 5)]) None] in
-  let run := trk_run 1 (trk_init (Some 20) false) h in
-  run_events (snd run) =
+  let q := @trk_env_quiet Z in
+  let h := [(q, OpUpdate 0 (mkMsg 111 [MPresent (Some 1)]) None);
+            (q, OpUpdate 1 (mkMsg 111 [MPresent (Some 2)]) None);
+            (q, OpUpdate 1 (mkMsg 111 [MPresent (Some 3)]) (Some 0));
+            (q, OpUpdate 30 (mkMsg 222 [MPresent (Some 4)]) None);
+            (q, OpPop 222);
+            (q, OpUpdate 31 (mkMsg 111 [MPresent (Some 5)]) None)] in
+  let run := trkc_run 1 (trk_init (Some 20) false) h in
+  run_events_c (snd run) =
     [(SCreated, 111); (SUpdated, 111); (SCreated, 222); (SDeleted, 111); (SDeleted, 222); (SCreated, 111)] /\
-  sp_alive 111 (run_events (snd run)) = Some true /\ sp_alive 222 (run_events (snd run)) = Some false /\
+  sp_alive 111 (run_events_c (snd run)) = Some true /\ sp_alive 222 (run_events_c (snd run)) = Some false /\
   sp_alive 111 [(SCreated, 111); (SCreated, 111)] = None.
+Proof. vm_compute. repeat split. Qed.
+
+(* non-vacuity with subscribers that raise.  Subscribers, in registration order: 100 (DELETED, monitor), 7 (DELETED,
+   raises KeyError for every track), 8 (DELETED), 7 (CREATED, raises ValueError for vessel 222).
+   t=0  update(111): CREATED to 7, returns.
+   t=13 update(222) (ttl 12): the track of 222 is inserted, CREATED goes to 7, which raises ValueError: update() raises
+        ValueError after the CREATED call and before cleanup(): 111 (age 13) stays, no DELETED.
+   t=13 cleanup(): oldest_timestamp is 0, 111 expires: DELETED goes to 100, then to 7, which raises KeyError -- swallowed;
+        subscriber 8 never hears of it; cleanup() returns.
+   The propagate calls (first line) follow the life cycle all the same. *)
+Example C15_nonvacuous_raising :
+  let en := @trk_env_of Z [(7, DELETED, None, Py KeyError); (7, CREATED, Some 222, Py ValueError)] [] in
+  let h := [(en, OpAttach DELETED 100); (en, OpAttach DELETED 7); (en, OpAttach DELETED 8); (en, OpAttach CREATED 7);
+            (en, OpUpdate 0 (mkMsg 111 [MPresent (Some 1)]) None);
+            (en, OpUpdate 13 (mkMsg 222 [MPresent (Some 2)]) None);
+            (en, OpCleanup 13)] in
+  let run := trkc_run 1 (trk_init (Some 12) false) h in
+  run_events_c (snd run) = [(SCreated, 111); (SCreated, 222); (SDeleted, 111)] /\
+  map (@rc_exn Z) (snd run) = [None; None; None; None; None; Some (Py ValueError); None] /\
+  map (fun r => map (fun d => (fst (fst d), tr_mmsi (snd d))) (rc_deliv r)) (snd run) =
+    [[]; []; []; []; [(7, 111)]; [(7, 222)]; [(100, 111); (7, 111)]] /\
+  map (@tr_mmsi Z) (trk_tracks (fst run)) = [222] /\
+  sp_alive 111 (run_events_c (snd run)) = Some false /\ sp_alive 222 (run_events_c (snd run)) = Some true.
 Proof. vm_compute. repeat split. Qed.
